@@ -6,6 +6,7 @@ import (
 	"fmt"
 	"go/token"
 	"go/types"
+	"os"
 	"sort"
 	"strings"
 
@@ -66,11 +67,22 @@ type Enc struct {
 	strs      map[string]string
 	constGlobs []T
 	inlineStack []*ssa.Function
+	autoDepth int // number of automatically (best-effort) inlined callees on the stack
+	privateCells []privateCell
+	extCells  []T // references of locals/captured variables introduced lazily (pairwise distinct)
 	topFn     *ssa.Function
 	pkg       *ssa.Package
 }
 
+var debugTerms = os.Getenv("GOVC_DEBUG") != ""
+
 type stopEncoding struct{}
+
+// privateCell is a non-escaping address-taken local (its contents are invisible to callees).
+type privateCell struct {
+	ptr Val
+	typ types.Type
+}
 
 func NewEnc(prog *Program, mode string) *Enc {
 	if mode == "" {
@@ -141,6 +153,13 @@ func (e *Enc) oblige(kind, label string, guard, goal T, src string, pos token.Po
 	}
 	o.Inputs = e.inputs
 	e.obls = append(e.obls, o)
+	if debugTerms {
+		g := goal.E
+		if len(g) > 600 {
+			g = g[:600] + "..."
+		}
+		fmt.Fprintf(os.Stderr, "DEBUG %s\n   guard=%s\n   goal=%s\n", name, guard.E, g)
+	}
 	return o
 }
 
@@ -149,14 +168,29 @@ func (e *Enc) obligeAssume(kind, label string, guard, goal T, src string, pos to
 	if goal.E == "true" || guard.E == "false" || e.specEval > 0 {
 		return
 	}
-	if len(e.inlineStack) > 0 && (kind == "bounds" || kind == "div" || kind == "nil") && !(e.contract != nil && e.contract.NoPanic) {
+	if (len(e.inlineStack) > 0 && (kind == "bounds" || kind == "div" || kind == "nil") || e.autoDepth > 0 && kind == "arith") && !(e.contract != nil && e.contract.NoPanic) {
 		// run-time panics inside inlined callees are not this function's obligations: assumed absent
 		// (they are obligations of the callee's own contract, or of a harness marked nopanic)
 		e.assert(Implies(guard, goal))
 		return
 	}
+	if kind == "bounds" && e.contract != nil && e.contract.Opts["bounds"] == "assume" {
+		// opt bounds=assume: index/slice safety of this (large, I/O) function is not the claim; assumed and reported
+		e.assert(Implies(guard, goal))
+		e.noteAssumed(e.fnName + ": index and slice expressions are in range (opt bounds=assume)")
+		return
+	}
 	e.oblige(kind, label, guard, goal, src, pos)
 	e.assert(Implies(guard, goal))
+}
+
+func (e *Enc) noteAssumed(s string) {
+	for _, a := range e.assumed {
+		if a == s {
+			return
+		}
+	}
+	e.assumed = append(e.assumed, s)
 }
 
 // ---- frames ----
@@ -344,8 +378,28 @@ func (e *Enc) get(fr *Frame, v ssa.Value) Val {
 				}
 			}
 		}
-		if _, isAlloc := v.(*ssa.Alloc); isAlloc {
+		if fv, isFV := v.(*ssa.FreeVar); isFV && e.discovery == 0 {
+			// captured variable of the enclosing function: only this closure family can reach it
+			if pt, ok := fv.Type().Underlying().(*types.Pointer); ok {
+				e.assert(T{BoolS, app("<", "0", x.L[0].E)})
+				e.privateCells = append(e.privateCells, privateCell{x, pt.Elem()})
+				for _, o := range e.extCells {
+					e.assert(Not(Eq(o, x.L[0])))
+				}
+				e.extCells = append(e.extCells, x.L[0])
+			}
+		}
+		if al, isAlloc := v.(*ssa.Alloc); isAlloc {
 			e.assert(T{BoolS, app("<", "0", x.L[0].E)})
+			if !al.Heap && e.discovery == 0 {
+				e.privateCells = append(e.privateCells, privateCell{x, al.Type().(*types.Pointer).Elem()})
+			}
+			if e.discovery == 0 {
+				for _, o := range e.extCells {
+					e.assert(Not(Eq(o, x.L[0])))
+				}
+				e.extCells = append(e.extCells, x.L[0])
+			}
 		}
 		fr.vals[v] = x
 		return x
@@ -413,6 +467,26 @@ func (e *Enc) havocAll(st *State, why string) {
 		e.writes["*"] = true
 	}
 	oldTop := e.heapGet(st, "!top", IntS)
+	// address-taken locals that do not escape (go/ssa: Alloc.Heap == false) are not reachable by
+	// the callee: their contents survive the havoc
+	type saved struct {
+		c privateCell
+		v Val
+	}
+	var savedCells []saved
+	if e.quantDepth == 0 {
+		for _, c := range e.privateCells {
+			if c.ptr.P != nil && c.ptr.P.Space != "H" {
+				continue
+			}
+			savedCells = append(savedCells, saved{c, e.nameVal(e.loadAt(st, c.ptr, c.typ), "keep")})
+		}
+	}
+	defer func() {
+		for _, s := range savedCells {
+			e.storeAt(st, s.c.ptr, s.v)
+		}
+	}()
 	keep := map[string]T{}
 	for k, v := range st.H {
 		if strings.HasPrefix(k, "!called|") {
@@ -541,7 +615,7 @@ func (e *Enc) loopHeader(fr *Frame, li *LoopInfo, guard T, st *State) (T, *State
 	}
 	hdr := li.header
 	// 1. invariant holds on entry
-	sc := e.scopeAt(fr, hdr, 0, st)
+	sc := e.scopeAt(fr, hdr, lastPhiIdx(hdr), st)
 	sc.old = fr.entrySt
 	for _, c := range spec.Invariants {
 		t := e.evalBool(sc, c.E)
@@ -590,7 +664,7 @@ func (e *Enc) loopHeader(fr *Frame, li *LoopInfo, guard T, st *State) (T, *State
 		fr.vals[phi] = nv
 	}
 	// 3. assume the invariant for an arbitrary iteration
-	sc = e.scopeAt(fr, hdr, 0, st)
+	sc = e.scopeAt(fr, hdr, lastPhiIdx(hdr), st)
 	sc.old = fr.entrySt
 	for _, c := range spec.Invariants {
 		t := e.evalBool(sc, c.E)
@@ -654,6 +728,7 @@ func clabel(c *Clause) string {
 func (e *Enc) discoverWrites(fr *Frame, li *LoopInfo, guard T, st *State) map[string]bool {
 	saveOut, saveObls, saveWrites := len(e.out), len(e.obls), e.writes
 	saveApprox := len(e.approx)
+	saveCells := len(e.privateCells)
 	e.discovery++
 	e.writes = map[string]bool{}
 	sub := &Frame{fn: fr.fn, vals: map[ssa.Value]Val{}, edges: map[[2]int]*Edge{}, guards: map[int]T{}, loops: fr.loops,
@@ -709,6 +784,7 @@ func (e *Enc) discoverWrites(fr *Frame, li *LoopInfo, guard T, st *State) map[st
 	e.out = kept
 	e.obls = e.obls[:saveObls]
 	e.approx = e.approx[:saveApprox]
+	e.privateCells = e.privateCells[:saveCells]
 	return w
 }
 
@@ -899,6 +975,13 @@ func (e *Enc) evalClauseOpt(fr *Frame, sc *Scope, c *Clause) (t T, ok bool) {
 	defer func() {
 		if r := recover(); r != nil {
 			if u, isU := r.(unsupported); isU && fr.contract != nil {
+				// a local variable of the function that has no definition reaching this edge: the
+				// clause talks about a path that was not taken, it does not apply here
+				const pre = "unknown identifier in contract: "
+				if strings.HasPrefix(string(u), pre) && isLocalName(fr.fn, string(u)[len(pre):]) {
+					t, ok = True, false
+					return
+				}
 				for _, cs := range fr.contract.Cuts {
 					for _, l := range cs.Lets {
 						if string(u) == "unknown identifier in contract: "+l.Label {
@@ -912,4 +995,27 @@ func (e *Enc) evalClauseOpt(fr *Frame, sc *Scope, c *Clause) (t T, ok bool) {
 		}
 	}()
 	return e.evalBool(sc, c.E), true
+}
+
+// isLocalName reports whether name is a source-level local variable of fn (it has a DebugRef).
+func isLocalName(fn *ssa.Function, name string) bool {
+	for _, b := range fn.Blocks {
+		for _, ins := range b.Instrs {
+			if d, ok := ins.(*ssa.DebugRef); ok && identName(d) == name {
+				return true
+			}
+		}
+	}
+	return false
+}
+
+// lastPhiIdx is the index of the last phi of a block (0 if it has none).
+func lastPhiIdx(b *ssa.BasicBlock) int {
+	k := 0
+	for i, ins := range b.Instrs {
+		if _, ok := ins.(*ssa.Phi); ok {
+			k = i
+		}
+	}
+	return k
 }
